@@ -173,13 +173,22 @@ Fixpoint run_polls (polls : nat) (c : codec) (st : rstate) (wire : list N) (scri
   end.
 
 (* ---- end-to-end cases over real yamux substreams (TCP / WebSocket substream types) ----
-   case := T arg nops op* 0 0 0 0,  T = 10 + codec tag (TCP type) | 20 + codec tag (WebSocket type);
+   case := T arg nops op* z1 z2 0 0,  T = 10 + codec tag (TCP type) | 20 + codec tag (WebSocket type);
    ops: 1 b len = SinkExt::feed; 2 = SinkExt::flush; 3 b len = send_framed; 4 = SinkExt::close;
    a reader task drains the accepting side concurrently until the end of the stream.
    trace := 2, one code per op, number of frames, RLE of every frame, reader's final code (1 = clean end).
    Messages are kept as (b, len) here: no byte list is built, so sizes of several flow-control
-   windows are fine. What the trace must look like is the executable face of C04_roundtrip,
-   C04_close_sends_nothing and C04_close_after_flush_complete under a fair schedule. *)
+   windows are fine.
+   z1 z2 are NOT inputs of the run: the harness fills them in after it (the stored values are ignored):
+   z1 = number of frames the reader got, z2 = 1 when the accepting side saw the stream at all. They are the
+   environment's share of the outcome. A feed is poll_ready + start_send, and poll_ready flushes only while
+   BACKPRESSURE_BOUNDARY bytes or more are queued (C04_poll_ready_flushes_to_boundary): where such a flush is
+   stalled by the transport with fewer bytes left, it is not taken up again, so how much of the frames that
+   were fed but never covered by a completed flush / send_framed is on the wire when close shuts the carrier
+   down depends on the stalls. The model takes the count from the run and the oracle checks that it is one the
+   code allows: every message covered by a completed flush or send_framed is there, then a prefix of the fed
+   ones that a backpressure flush may have written, never beyond, never fewer than such a flush must have
+   written; a frame cut by the close is not delivered (C04_eof_inside_frame_is_end_of_stream). *)
 Record eop := mkEop { e_tag : N; e_b : N; e_len : N }.
 
 Definition p_eop : parser eop :=
@@ -191,7 +200,7 @@ Definition p_eop : parser eop :=
   | _ => pfail
   end.
 
-Definition decode_e2e (l : list N) : option (codec * list eop) :=
+Definition decode_e2e (l : list N) : option (codec * list eop * N * N) :=
   pall (let* t := pN in let* arg := pN in
         let* _ := pguard (((10 <=? t) && (t <=? 12)) || ((20 <=? t) && (t <=? 22))) in
         let tag := if t <? 20 then t - 10 else t - 20 in
@@ -202,8 +211,8 @@ Definition decode_e2e (l : list N) : option (codec * list eop) :=
                    end) in
         let* ops := plist p_eop in
         let* z1 := pN in let* z2 := pN in let* z3 := pN in let* z4 := pN in
-        let* _ := pguard ((z1 =? 0) && (z2 =? 0) && (z3 =? 0) && (z4 =? 0)) in
-        pret (c, ops)) l.
+        let* _ := pguard ((z1 <=? 1000000) && (z2 <=? 1) && (z3 =? 0) && (z4 =? 0)) in
+        pret (c, ops, z1, z2)) l.
 
 Definition fits_len (c : codec) (len : N) : bool :=
   match c with
@@ -224,51 +233,86 @@ Definition e2e_code (c : codec) (o : eop) : N :=
   | _ => 1
   end.
 
-(* frames that reach the peer: feed = poll_ready (a flush when BACKPRESSURE_BOUNDARY bytes are
-   queued) + start_send; flush and send_framed write out everything queued; close writes nothing,
-   so what is still queued then is dropped. q = queued frames (newest first), pb = queued bytes. *)
-Fixpoint e2e_go (c : codec) (ops : list eop) (q : list (list N)) (pb : N) : list (list N) :=
+(* bytes a message takes on the wire *)
+Definition wire_size (c : codec) (len : N) : N :=
+  len + match c with Identity _ => 0 | Varint _ => lenN (varint_enc len) end.
+
+(* What a history commits to and what it leaves open.
+   com  = frames covered by a completed flush / send_framed (oldest first): they reach the peer;
+   q    = frames fed since (newest first, with their wire sizes), qb = their bytes;
+   [ulo, uhi] = bounds on how many of those qb bytes the backpressure flushes of poll_ready have written:
+   a feed that surely finds >= BP bytes pending (qb - uhi >= BP) flushes until fewer than BP are left
+   (ulo >= qb - BP + 1) and may flush everything (uhi = qb); one that may find them (qb - ulo >= BP) may. *)
+Record e2e_st := mkE2e { ec_com : list (list N); ec_q : list (list N * N); ec_qb : N; ec_ulo : N; ec_uhi : N }.
+
+Fixpoint e2e_an (c : codec) (ops : list eop) (st : e2e_st) : e2e_st :=
   match ops with
-  | [] => []
+  | [] => st
   | o :: t =>
       match e_tag o with
       | 1 =>
-          let flushed := if BP <=? pb then rev q else [] in
-          let q1 := if BP <=? pb then [] else q in
-          let pb1 := if BP <=? pb then 0 else pb in
+          let qb := ec_qb st in
+          let '(ulo1, uhi1) :=
+            if BP <=? qb - ec_uhi st then (N.max (ec_ulo st) (qb - BP + 1), qb)
+            else if BP <=? qb - ec_ulo st then (ec_ulo st, qb)
+            else (ec_ulo st, ec_uhi st) in
           if fits_len c (e_len o)
-          then flushed ++ e2e_go c t (msg_rle (e_b o) (e_len o) :: q1)
-                                 (pb1 + e_len o + match c with Identity _ => 0 | Varint _ => lenN (varint_enc (e_len o)) end)
-          else flushed ++ e2e_go c t q1 pb1
-      | 2 => rev q ++ e2e_go c t [] 0
-      | 3 => rev q ++ (if fits_len c (e_len o) then [msg_rle (e_b o) (e_len o)] else []) ++ e2e_go c t [] 0
-      | _ => e2e_go c t [] 0
+          then e2e_an c t (mkE2e (ec_com st) ((msg_rle (e_b o) (e_len o), wire_size c (e_len o)) :: ec_q st)
+                                 (qb + wire_size c (e_len o)) ulo1 uhi1)
+          else e2e_an c t (mkE2e (ec_com st) (ec_q st) qb ulo1 uhi1)
+      | 2 => e2e_an c t (mkE2e (ec_com st ++ map fst (rev (ec_q st))) [] 0 0 0)
+      | 3 => e2e_an c t (mkE2e (ec_com st ++ map fst (rev (ec_q st)) ++
+                                (if fits_len c (e_len o) then [msg_rle (e_b o) (e_len o)] else [])) [] 0 0 0)
+      | _ => st      (* close: the carrier is shut down, what is queued stays behind *)
       end
   end.
 
-Definition e2e_frames (c : codec) (ops : list eop) : list (list N) :=
+Definition e2e_final (c : codec) (ops : list eop) : e2e_st := e2e_an c ops (mkE2e [] [] 0 0 0).
+
+(* every accepted message in call order: the committed ones, then the open ones *)
+Definition e2e_all (c : codec) (ops : list eop) : list (list N) :=
   match c with
   | Identity 0 => []      (* C04_identity_zero: nothing is ever delivered *)
-  | _ => e2e_go c ops [] 0
+  | _ => let st := e2e_final c ops in ec_com st ++ map fst (rev (ec_q st))
   end.
 
-(* yamux announces a stream with its first data frame: when no byte at all is written the
-   accepting side never sees the stream (reader code 8), otherwise it sees a clean end (1) *)
-Definition e2e_fin (c : codec) (ops : list eop) : N :=
+Definition e2e_frames (c : codec) (ops : list eop) (z1 : N) : list (list N) :=
+  firstn (N.to_nat (N.min z1 (N.of_nat (length (e2e_all c ops))))) (e2e_all c ops).
+
+Fixpoint cum_size (k : nat) (l : list (list N * N)) : N :=
+  match k, l with
+  | S k', x :: t => snd x + cum_size k' t
+  | _, _ => 0
+  end.
+
+(* is the outcome (z1 frames delivered, stream seen = z2) one the code allows? *)
+Definition e2e_choice_ok (c : codec) (ops : list eop) (z1 z2 : N) (yamux : bool) : bool :=
+  let st := e2e_final c ops in
+  let nc := N.of_nat (length (ec_com st)) in
+  let q := rev (ec_q st) in
   match c with
-  | Identity 0 => 8
-  | _ => if is_nil (e2e_go c ops [] 0) then 8 else 1
+  | Identity 0 => z1 =? 0
+  | _ =>
+      let k := N.to_nat (z1 - nc) in
+      (nc <=? z1) && (z1 <=? nc + N.of_nat (length q)) &&
+      (* not beyond what a backpressure flush can have written, not short of what it must have *)
+      (cum_size k q <=? ec_uhi st) &&
+      ((N.of_nat k =? N.of_nat (length q)) || (ec_ulo st <? cum_size (S k) q)) &&
+      (* yamux announces a stream with its first data frame: seen iff a byte was written *)
+      (negb yamux ||
+       ((negb (0 <? z1) || (z2 =? 1)) && (negb (0 <? ec_ulo st) || (z2 =? 1)) &&
+        (negb ((nc =? 0) && (ec_uhi st =? 0)) || (z2 =? 0))))
   end.
 
-Definition run_e2e (c : codec) (ops : list eop) : list N :=
+Definition run_e2e (c : codec) (ops : list eop) (z1 z2 : N) : list N :=
   2 :: map (e2e_code c) ops ++
-  N.of_nat (length (e2e_frames c ops)) :: concat (e2e_frames c ops) ++ [e2e_fin c ops].
+  N.of_nat (length (e2e_frames c ops z1)) :: concat (e2e_frames c ops z1) ++ [if z2 =? 1 then 1 else 8].
 
-(* every refusal is justified, everything else succeeded, the frames delivered are exactly the
-   accepted messages that were flushed (or sent by send_framed) before the close, in call order,
-   and the reader saw a clean end of stream *)
-Definition e2e_ok (c : codec) (ops : list eop) (trace : list N) : bool :=
-  nlist_eqb trace (run_e2e c ops).
+(* every refusal is justified, everything else succeeded, the frames delivered are exactly the first z1 accepted
+   messages in call order, z1 and z2 are an outcome the code allows (every message covered by a completed flush /
+   send_framed is among them), and the reader saw a clean end of stream *)
+Definition e2e_ok (c : codec) (ops : list eop) (z1 z2 : N) (trace : list N) : bool :=
+  nlist_eqb trace (run_e2e c ops z1 z2) && e2e_choice_ok c ops z1 z2 true.
 
 Definition is_e2e (l : list N) : bool := match l with t :: _ => 10 <=? t | [] => false end.
 Definition kind_of (l : list N) : N := match l with t :: _ => t | [] => 0 end.
@@ -276,16 +320,16 @@ Definition kind_of (l : list N) : N := match l with t :: _ => t | [] => 0 end.
 (* kinds 60..62: the same end-to-end scenario over the QUIC substream type (two litep2p nodes over QUIC on the
    loopback interface; only in the harness crate built with the quic feature). case := 60+tag arg nops op* 0 0 0 0;
    trace := 11, one code per op, number of frames, RLE of every frame, reader's final code. A QUIC substream is
-   negotiated before any payload, so the accepting side always sees it and then a clean end. *)
-Definition decode_q2e (l : list N) : option (codec * list eop) :=
+   negotiated before any payload, so the accepting side always sees it and then a clean end; z1 as above. *)
+Definition decode_q2e (l : list N) : option (codec * list eop * N * N) :=
   match l with
   | t :: rest => if (60 <=? t) && (t <=? 62) then decode_e2e ((t - 50) :: rest) else None
   | [] => None
   end.
 
-Definition run_q2e (c : codec) (ops : list eop) : list N :=
+Definition run_q2e (c : codec) (ops : list eop) (z1 : N) : list N :=
   11 :: map (e2e_code c) ops ++
-  N.of_nat (length (e2e_frames c ops)) :: concat (e2e_frames c ops) ++ [1].
+  N.of_nat (length (e2e_frames c ops z1)) :: concat (e2e_frames c ops z1) ++ [1].
 
 (* kinds 30.. are the further streams (GlueCodec.v, GlueYamux.v, GlueWebRtc.v) *)
 Definition run_ext (l : list N) : option (list N) :=
@@ -296,7 +340,7 @@ Definition run_ext (l : list N) : option (list N) :=
   | 41 => Some (match decode_rcase l with Some r => run_rcase r | None => [0] end)
   | 50 => Some (match decode_wcase l with Some w => run_wcase w | None => [0] end)
   | 51 => Some (match decode_wrcase l with Some r => run_wrcase r | None => [0] end)
-  | 60 | 61 | 62 => Some (match decode_q2e l with Some (c, ops) => run_q2e c ops | None => [0] end)
+  | 60 | 61 | 62 => Some (match decode_q2e l with Some (c, ops, z1, _) => run_q2e c ops z1 | None => [0] end)
   | _ => None
   end.
 
@@ -309,7 +353,7 @@ Definition ok_ext (l trace : list N) : option bool :=
   | 50 => Some (match decode_wcase l with Some w => prop_ok_w w trace | None => nlist_eqb trace [0] end)
   | 51 => Some (match decode_wrcase l with Some r => prop_ok_wr r trace | None => nlist_eqb trace [0] end)
   | 60 | 61 | 62 => Some (match decode_q2e l with
-                          | Some (c, ops) => nlist_eqb trace (run_q2e c ops)
+                          | Some (c, ops, z1, z2) => nlist_eqb trace (run_q2e c ops z1) && e2e_choice_ok c ops z1 z2 false
                           | None => nlist_eqb trace [0]
                           end)
   | _ => None
@@ -317,7 +361,7 @@ Definition ok_ext (l trace : list N) : option bool :=
 
 Definition run_case (l : list N) : list N :=
   match run_ext l with Some t => t | None =>
-  if is_e2e l then match decode_e2e l with Some (c, ops) => run_e2e c ops | None => [0] end else
+  if is_e2e l then match decode_e2e l with Some (c, ops, z1, z2) => run_e2e c ops z1 z2 | None => [0] end else
   match decode_case l with
   | Some t =>
       let '(wt, s) := run_writer (t_wscript t) (t_wkinds t) (t_codec t) (init_sys (t_wscript t)) (t_ops t) in
@@ -512,7 +556,7 @@ Definition prop_ok (case trace : list N) : bool :=
   match ok_ext case trace with Some b => b | None =>
   if is_e2e case then
     match decode_e2e case with
-    | Some (c, ops) => e2e_ok c ops trace
+    | Some (c, ops, z1, z2) => e2e_ok c ops z1 z2 trace
     | None => nlist_eqb trace [0]
     end
   else
